@@ -298,13 +298,133 @@ pub fn run(tier: &str) -> i32 {
     for host in 1..4 {
         run_space(&Prec { max_instr: 2, host }, None, &caps, &rep);
     }
+    run_space(&Lookups, None, &caps, &rep);
     rep.finish()
 }
 
 pub fn replay(f: &Failure) -> i32 {
+    if f.space == "dedicated-vs-default-lookups" {
+        return replay_space(&Lookups, f, "C05");
+    }
     let inner = f.space.trim_start_matches("precedence(<=").trim_end_matches(')');
     let mut parts = inner.splitn(2, ',');
     let n: usize = parts.next().unwrap_or("2").parse().unwrap_or(2);
     let host = parts.next().and_then(|h| HOSTS.iter().position(|x| *x == h)).unwrap_or(0);
     replay_space(&Prec { max_instr: n, host }, f, "C05")
+}
+
+// ---------------------------------------------------------------------------------------------------------------
+// dedicated-vs-default for every OTHER instruction that can be dedicated to a counterpart (type level, variant level,
+// and the member instructions outside the mapping menu).  Added after round-3 seeds C01-03, C02-03, C03-03, C05-03
+// (all four: "first default-or-dedicated instruction wins" instead of "dedicated first, default as fallback").
+
+pub struct Lookups;
+
+pub struct LCase {
+    pub input: String,
+    pub family: &'static str,
+    /// (slot: None = default | Some(cp), marker token) in written order
+    pub instrs: Vec<(Option<&'static str>, String)>,
+    pub tags: Vec<String>,
+}
+
+/// (family, host with {TYPE} / {MEMBER} hole, instruction template with {d} = "T| " or "" and {m} = marker number, marker template)
+const FAMILIES: &[(&str, &str, &str, &str)] = &[
+    ("struct-ghosts", "#[map(T)] #[into_existing(T)] #[map(U)] #[into_existing(U)] {TYPE} struct S { a: i32 }", "#[ghosts({d}g: { {m} })]", "{m}"),
+    ("struct-ghosts_owned", "#[map(T)] #[into_existing(T)] #[map(U)] #[into_existing(U)] {TYPE} struct S { a: i32 }", "#[o2o(ghosts_owned({d}g: { {m} }))]", "{m}"),
+    ("struct-ghosts_ref", "#[map(T)] #[into_existing(T)] #[map(U)] #[into_existing(U)] {TYPE} struct S { a: i32 }", "#[o2o(ghosts_ref({d}g: { {m} }))]", "{m}"),
+    ("tuple-struct-ghosts", "#[map(T)] #[into_existing(T)] #[map(U)] #[into_existing(U)] {TYPE} struct S(i32);", "#[ghosts({d}1: { {m} })]", "{m}"),
+    ("enum-ghosts", "#[map(T)] #[try_map(T, Er)] #[map(U)] #[try_map(U, Er)] {TYPE} enum S { A(i32), B }", "#[ghosts({d}Y: { S::A({m}) })]", "{m}"),
+    ("variant-ghosts", "#[map(T)] #[try_map(T, Er)] #[map(U)] #[try_map(U, Er)] enum S { {MEMBER} A(i32), B }", "#[ghosts({d}1: { {m} })]", "{m}"),
+    ("child_parents", "#[map(T)] #[into_existing(T)] #[map(U)] #[into_existing(U)] {TYPE} struct S { #[child(p)] a: i32, b: i32 }", "#[child_parents({d}p: P{m})]", "P{m}"),
+    ("child", "#[map(T)] #[into_existing(T)] #[map(U)] #[into_existing(U)] #[child_parents(q1001: Q, q1002: Q, q1003: Q)] struct S { {MEMBER} a: i32, b: i32 }", "#[child({d}q{m})]", "q{m}"),
+    ("parent", "#[map(T)] #[into_existing(T)] #[map(U)] #[into_existing(U)] struct S { {MEMBER} p: P, b: i32 }", "#[parent({d}x{m}, y{m})]", "x{m}"),
+    ("where_clause", "#[map(T)] #[into_existing(T)] #[map(U)] #[into_existing(U)] {TYPE} struct S { a: i32 }", "#[where_clause({d}W{m}: Clone)]", "W{m}"),
+    ("variant-map", "#[map(T)] #[try_map(T, Er)] #[map(U)] #[try_map(U, Er)] enum S { {MEMBER} A(i32), B }", "#[map({d}V{m})]", "V{m}"),
+    ("variant-field-ghost", "#[map(T)] #[try_map(T, Er)] #[map(U)] #[try_map(U, Er)] enum S { A(i32, {MEMBER} i32), B }", "#[ghost({d}{ {m} })]", "{m}"),
+    ("as_type", "#[map(T)] #[into_existing(T)] #[map(U)] #[into_existing(U)] struct S { {MEMBER} a: i32, b: i32 }", "#[o2o(as_type({d}Ty{m}))]", "Ty{m}"),
+];
+
+impl Space for Lookups {
+    type Case = LCase;
+    fn name(&self) -> String {
+        "dedicated-vs-default-lookups".into()
+    }
+    fn gen(&self, ctx: &mut Ctx) -> Option<LCase> {
+        let (family, host, tmpl, mk) = FAMILIES[ctx.choose(FAMILIES.len())];
+        let present = ctx.subset(3); // default, T, U
+        if present.iter().filter(|x| **x).count() < 2 {
+            return ctx.reject();
+        }
+        let slots: Vec<(Option<&'static str>, usize)> = [(None, 1001usize), (Some("T"), 1002), (Some("U"), 1003)].iter().enumerate().filter(|(i, _)| present[*i]).map(|(_, x)| *x).collect();
+        // every written order
+        let perm = ctx.permutation(slots.len());
+        let mut instrs = vec![];
+        let mut text = vec![];
+        for i in perm {
+            let (slot, m) = slots[i];
+            let d = slot.map(|s| format!("{}| ", s)).unwrap_or_default();
+            text.push(tmpl.replace("{d}", &d).replace("{m}", &m.to_string()));
+            instrs.push((slot, mk.replace("{m}", &m.to_string())));
+        }
+        let input = host.replace("{TYPE}", &text.join(" ")).replace("{MEMBER}", &text.join(" "));
+        let mut tags = vec![format!("family={}", family)];
+        tags.push(format!("order={}", instrs.iter().map(|(s, _)| s.unwrap_or("default")).collect::<Vec<_>>().join(">")));
+        Some(LCase { input, family, instrs, tags })
+    }
+    fn check(&self, c: LCase, choices: &[u32], rep: &Report) {
+        let space = self.name();
+        rep.eval(1);
+        rep.states.add_of(&c.input);
+        rep.nontrivial.add_of(&c.input);
+        let impls = match impls_of(&c.input) {
+            Ok(v) => v,
+            Err((kind, detail)) => {
+                rep.outputs.add_of(&detail);
+                rep.fail(fail(&space, choices, &c.input, &c.tags, &kind, detail));
+                return;
+            }
+        };
+        rep.validate(1);
+        let mut sig = vec![];
+        for cp in ["T", "U"] {
+            let expected: Option<&String> = c.instrs.iter().find(|(s, _)| *s == Some(cp)).or_else(|| c.instrs.iter().find(|(s, _)| s.is_none())).map(|x| &x.1);
+            let mine: Vec<&ImplIR> = impls.iter().filter(|i| i.trait_args.first().map(|a| a.trim_start_matches("& ") == cp).unwrap_or(false)).collect();
+            if mine.is_empty() {
+                rep.fail(fail(&space, choices, &c.input, &c.tags, "missing-impl", format!("no impl for counterpart {}", cp)));
+                continue;
+            }
+            let mut problems = vec![];
+            let mut seen_expected = false;
+            for i in &mine {
+                let toks: Vec<&str> = i.text.split(' ').collect();
+                for (_, m) in &c.instrs {
+                    let present = toks.iter().any(|t| t == m);
+                    if Some(m) == expected {
+                        seen_expected |= present;
+                    } else if present {
+                        problems.push(format!("`{}` (of an instruction that is shadowed or dedicated to the other counterpart) occurs in `impl {} <{}> for {}`", m, i.trait_path.last().cloned().unwrap_or_default(), i.trait_args.join(", "), i.self_ty));
+                    }
+                }
+            }
+            if let Some(e) = expected {
+                if !seen_expected {
+                    problems.push(format!("`{}` (the instruction that applies to {}) occurs in none of its impls", e, cp));
+                }
+            }
+            sig.push((cp, expected.cloned(), problems.len()));
+            if !problems.is_empty() {
+                let mut tags = c.tags.clone();
+                tags.push(format!("cp={}", cp));
+                let mut f = fail(&space, choices, &c.input, &tags, "wrong-winner", format!("{} for {}: {}", c.family, cp, problems.join("; ")));
+                f.expected = format!("instruction in effect for {}: {}", cp, expected.cloned().unwrap_or_else(|| "none".into()));
+                f.observed = trunc(&mine.iter().map(|i| i.text.clone()).collect::<Vec<_>>().join(" || "), 900);
+                rep.fail(f);
+            }
+        }
+        rep.outputs.add_of(&(c.family, sig));
+        if rep.want_sample() {
+            rep.sample(json!({"choices": choices, "input": c.input}));
+        }
+    }
 }
